@@ -498,10 +498,13 @@ def strload(val: str | bytes | bytearray | memoryview) -> PythonValueT:
 
 @compat.lru_cache(maxsize=100_000)
 def _strload(val: str | bytes) -> PythonValueT:
-    with contextlib.suppress(ValueError):
-        return compat.json.loads(val)
-
+    # Every carrier of one text must read alike: decode first, then parse the text.
+    #   (Handed bytes, the stdlib `json.loads` strips a UTF-8 signature and guesses
+    #   UTF-16/32, which it does not do for the same content as `str`.)
     decoded = decode(val)
+    with contextlib.suppress(ValueError):
+        return compat.json.loads(decoded)
+
     # All the errors `ast.literal_eval` is documented to raise on malformed input.
     with contextlib.suppress(
         ValueError, TypeError, SyntaxError, MemoryError, RecursionError
